@@ -26,6 +26,13 @@ fn atoms() -> Vec<J> {
         json!(i64::MAX),
         json!(i64::MIN),
         json!(1e308),
+        // zero, negative zero, the smallest subnormal and the smallest normal float (added after
+        // seeded change C44: a finite-float test written with is_normal())
+        json!(0.0),
+        json!(-0.0),
+        json!(5e-324),
+        json!(2.2250738585072014e-308),
+        json!(-273.15),
         json!([]),
         json!({}),
         json!(9223372036854775808u64),
@@ -212,7 +219,7 @@ fn self_test() {
     assert_ne!(json!(9223372036854775808u64), json!(9.223372036854776e18));
     assert_eq!(depth(&json!([[1]])), 2);
     let sp = Space { d1: depth1(), pairs: true };
-    assert_eq!(sp.d1.len(), 15 + 15 + 15 + 225 + 225);
+    assert_eq!(sp.d1.len(), 20 + 20 + 20 + 400 + 400);
     assert_eq!(sp.value(sp.total() - 1), json!({"a": {"a": u64::MAX, "b": u64::MAX}, "b": {"a": u64::MAX, "b": u64::MAX}}));
     assert!((0..sp.total()).step_by(997).all(|i| depth(&sp.value(i)) <= 2));
 }
@@ -269,7 +276,7 @@ pub fn run(args: &Args) -> ! {
     rep.set("values", json!(total));
     rep.set("atoms", json!(atoms()));
     rep.rule = format!(
-        "Exhaustive: every JSON value of depth ≤ 2 built from the {} atoms (0, −1, true, null, \"\", \"é\", 0.5, 1.0, i64::MAX, i64::MIN, 1e308, [], {{}}, 2^63, u64::MAX): D1 = atoms, arrays of 1–2 atoms, objects with keys a / a,b ({} values); the space is D1, [v] and {{\"a\":v}} for v in D1{} — {} values, each injected as field x through POST …/events and POST …/events-batch of the real route tree into `stream S = E.emit(x: x)`; the returned x must equal the injected JSON value exactly. Non-trivial = a container, or a number other than 0/±1.",
+        "Exhaustive: every JSON value of depth ≤ 2 built from the {} atoms (0, −1, true, null, \"\", \"é\", 0.5, 1.0, i64::MAX, i64::MIN, 1e308, 0.0, −0.0, 5e-324, f64::MIN_POSITIVE, −273.15, [], {{}}, 2^63, u64::MAX): D1 = atoms, arrays of 1–2 atoms, objects with keys a / a,b ({} values); the space is D1, [v] and {{\"a\":v}} for v in D1{} — {} values, each injected as field x through POST …/events and POST …/events-batch of the real route tree into `stream S = E.emit(x: x)`; the returned x must equal the injected JSON value exactly. Non-trivial = a container, or a number other than 0/±1.",
         atoms().len(),
         space.d1.len(),
         if space.pairs { ", and [v,w] and {\"a\":v,\"b\":w} for all (v,w) in D1×D1" } else { " (pairs of D1 values inside one container: thorough tier only)" },
